@@ -1,19 +1,19 @@
 #!/bin/sh
 # Build the framework from files on disk only (offline). Run in /verif.
-set -e
-cd "$(dirname "$0")"
+# Every property's Lean targets and harness are built separately: a failure in one of them is reported by that
+# property's own check when it runs, it does not stop the others from being set up.
+cd "$(dirname "$0")" || exit 1
 export GOFLAGS=-mod=mod GOPROXY=off GOSUMDB=off GOTOOLCHAIN=local GOPHERJS_SKIP_VERSION_CHECK=true CGO_ENABLED=0
-python3 tools/gen_manifest.py --check
+python3 tools/gen_manifest.py --check || exit 1
 mkdir -p .locks evidence replays harness/bin
 PROPS=$(python3 -c "import json;print(' '.join(c['property_id'] for c in json.load(open('MANIFEST.json'))['checks']))")
-TARGETS=""
 for p in $PROPS; do
   lp=$(echo $p | tr 'A-Z' 'a-z')
-  TARGETS="$TARGETS GV.Props.$p gvdriver_$lp"
+  (cd lean && lake build GV.Props.$p gvdriver_$lp) > /tmp/setup_$p.log 2>&1 || { echo "warning: Lean targets of $p do not build (see its check)"; tail -5 /tmp/setup_$p.log; }
 done
-(cd lean && lake build $TARGETS)
 cp /repo/go.sum harness/go.sum
 for d in harness/cmd/*/; do
   n=$(basename $d)
-  (cd harness && go build -tags verif -o bin/$n ./cmd/$n) || echo "warning: harness $n does not build yet" >&2
+  (cd harness && go build -tags verif -o bin/$n ./cmd/$n) || echo "warning: harness $n does not build (see its check)" >&2
 done
+exit 0
